@@ -127,6 +127,18 @@ int main(int argc, char **argv)
 	}
 #endif
 
+	/* --set-uid/--set-gid/--all-root are for ALL inodes: also for the
+	   root and for directories that get created implicitly */
+	if (!(opt.dirscan_flags & DIR_SCAN_KEEP_UID)) {
+		sqfs.fs.defaults.uid = opt.force_uid_value;
+		sqfs.fs.root->uid = opt.force_uid_value;
+	}
+
+	if (!(opt.dirscan_flags & DIR_SCAN_KEEP_GID)) {
+		sqfs.fs.defaults.gid = opt.force_gid_value;
+		sqfs.fs.root->gid = opt.force_gid_value;
+	}
+
 	if (opt.selinux != NULL) {
 		sehnd = selinux_open_context_file(opt.selinux);
 		if (sehnd == NULL)
